@@ -244,8 +244,34 @@ def enum_bases(seed):
     return out
 
 
+def generation_cases():
+    """Enumerated (every run): a SECOND generation of events in the process. Every iv_event of every thread is unregistered (the transport's
+    process-wide resources are torn down), the application opens descriptors of its own (or not), then events are registered again, in the
+    same or another thread, and posted to from a different thread: the post must be delivered exactly as in the first generation. Both
+    transports."""
+    cases = []
+    for tr in (None, "epoll-timerfd", "epoll-timerfd epoll"):
+        for app in ("appfd", "appfd ; appfd", "nop"):
+            for owner2 in (0, 1):
+                L = ["cfg seed=@SEED@ stay=55 waitlimit=120 cblimit=400"] + ([f"exclude {tr}"] if tr else [])
+                L += ["thread 0", "obj event e0"] + (["obj event e1"] if owner2 == 0 else []) + ["obj timer t0", "obj timer t1", "obj timer t2",
+                      "do evreg e0 ; trel t0 1000000"]
+                if owner2 == 0:
+                    L += [f"on t0 1 : evunreg e0 ; {app} ; evreg e1 ; trel t1 50000000", "on t1 1 : evunreg e1", "main",
+                          "thread 1", "obj timer t8", "do trel t8 3000000", "on t8 1 : evpost e1", "main"]
+                else:
+                    L += [f"on t0 1 : evunreg e0 ; {app} ; trel t2 5000000", "on t2 1 : evpost e1", "main",
+                          "thread 1", "obj event e1", "obj timer t8", "obj timer t9", "do trel t8 2000000",
+                          "on t8 1 : evreg e1 ; trel t9 50000000", "on t9 1 : evunreg e1", "main"]
+                cases.append((f"generation-{tr or 'default'}-{app.count('appfd')}-o{owner2}".replace(" ", "+"), L))
+    return cases
+
+
 def gen_cases(tier, seed):
     yield from corpus_cases(seed)
+    for name, scn in generation_cases():
+        for j in range(2):
+            yield (f"{name}-i{j}", with_seed(scn, seed * 100 + j + 1))
     from . import sched
     yield from sched.enum_cases(PROP, HARNESS, enum_bases(seed), tier, os.path.join(common.BUILD, "sched-c08"))
     rng = random.Random(seed * 7919 + 8)
